@@ -308,6 +308,14 @@ class World:
         self.remote = admin_repo.gitrepo.tmp_directory
         self.repos = {u: c.get_repository(SLUG, owner=OWNER)
                       for u, c in self.clients.items()}
+        if self.cfg.get('cred_url'):
+            world = self
+            mock.Repository.git_url = property(
+                lambda repo: (repo.get_git_url() and False) or
+                world.cfg['cred_url'])
+            with open(os.environ['GIT_CONFIG_GLOBAL'], 'a') as f:
+                f.write('[url "%s"]\n\tinsteadOf = %s\n' % (
+                    self.remote, self.cfg['cred_url']))
         for r in self.repos.values():
             r.get_git_url()
         hook = os.path.join(self.remote, 'hooks', 'update')
@@ -526,6 +534,46 @@ class World:
         c = command.strip()
         if self.cur is not None and self.cur.get('record_cmds'):
             self.cur['cmds'].append(c)
+        p = self.plan or {}
+        if p.get('kind') in ('giterr', 'githang') and \
+                p.get('n') == self.ncmd - 1:
+            # the sub-process itself fails or hangs, printing the remote URL
+            # (with credentials) the way git does.  Seam: the `subprocess`
+            # module attribute of bert_e.lib.simplecmd - the command string
+            # Bert-E built is kept, another process runs in its place.
+            import shlex
+            import subprocess as real_subprocess
+            import bert_e.lib.simplecmd as simplecmd
+            self.fired = True
+            self._count_fault(p['kind'])
+            url = self.cfg.get('cred_url') or self.remote
+            msg = ("fatal: unable to access '%s/': The requested URL "
+                   "returned error: 403\nremote: Invalid credentials for "
+                   "%s" % (url, url))
+            fake = 'printf "%%s\\n" %s; printf "%%s\\n" %s >&2; ' % (
+                shlex.quote(msg), shlex.quote(msg))
+            kw2 = dict(kw)
+            if p['kind'] == 'giterr':
+                fake += 'exit 128'
+            else:
+                fake += 'sleep 20'
+                kw2['timeout'] = 0.05
+            if self.cur is not None:
+                self.cur['faulted_cmd'] = c
+
+            class Proxy:
+                def __getattr__(self_, name):
+                    return getattr(real_subprocess, name)
+
+                def Popen(self_, args, **kwargs):
+                    proc = real_subprocess.Popen(fake, **kwargs)
+                    proc.args = args
+                    return proc
+            simplecmd.subprocess = Proxy()
+            try:
+                return self._real_cmd(command, **kw2)
+            finally:
+                simplecmd.subprocess = real_subprocess
         if not c.startswith('git push'):
             if self.partitioned and self._touches_remote(c):
                 raise self._net_error(c)
